@@ -20,6 +20,7 @@ import (
 	"github.com/ipld/go-ipld-prime/linking"
 	cidlink "github.com/ipld/go-ipld-prime/linking/cid"
 	"github.com/libp2p/go-libp2p/core/peer"
+	"github.com/libp2p/go-libp2p/core/peerstore"
 
 	"github.com/sourcenetwork/corekv"
 	"github.com/sourcenetwork/corelog"
@@ -128,8 +129,15 @@ func (p *Peer) SetReplicator(ctx context.Context, repInfo peer.AddrInfo, collect
 		return err
 	}
 
+	// The cached replicators must be updated before any later change to the replicators can be made,
+	// otherwise a later delete could be overwritten by this (older) update.
+	txn.OnSuccess(func() {
+		p.host.Peerstore().AddAddrs(repInfo.ID, repInfo.Addrs, peerstore.PermanentAddrTTL)
+		p.server.updateReplicatorCollections(repInfo, storedCollectionIDs)
+	})
+
 	txn.OnSuccessAsync(func() {
-		p.server.updateReplicators(repInfo, storedCollectionIDs)
+		p.server.connectReplicator(repInfo, true)
 		for _, col := range addedCols {
 			err := p.pushHeadsForAllDocs(context.Background(), col, repInfo.ID)
 			if err != nil {
